@@ -35,6 +35,7 @@ def install(reg: Registry):
             ('root-copied', z3.Implies(is_VRef(x), cp(v_a(x)))),
             ('copies-fresh', FA([cc], z3.Implies(cp(cc), z3.And(cc >= 0, cc < o.alloc, mu(cc) >= o.alloc, mu(cc) < h.alloc,
                                                                 h.cls(mu(cc)) == o.cls(cc), h.own_obj(mu(cc)) == -1)), [mu(cc)])),
+            ('copied-are-containers', FA([cc], z3.Implies(cp(cc), z3.Or(o.cls(cc) == CLS_LIST, o.cls(cc) == CLS_DICT)), [cp(cc)])),
             ('injective', FA([cc, e], z3.Implies(z3.And(cp(cc), cp(e), mu(cc) == mu(e)), cc == e), [(mu(cc), mu(e))])),
             ('dict-keys', FA([cc, k], z3.Implies(z3.And(cp(cc), o.cls(cc) == CLS_DICT), h.has(mu(cc), k) == o.has(cc, k)), [h.has(mu(cc), k)])),
             ('dict-values', FA([cc, k], z3.Implies(z3.And(cp(cc), o.cls(cc) == CLS_DICT, o.has(cc, k)),
@@ -52,8 +53,34 @@ def install(reg: Registry):
             ('list-bag-refs', FA([cc, e], z3.Implies(z3.And(cp(cc), o.cls(cc) == CLS_LIST, o.bag(cc, VRef(e)) > 0),
                                                      z3.And(cp(e), h.bag(mu(cc), VRef(mu(e))) == o.bag(cc, VRef(e)))), [o.bag(cc, VRef(e))])),
             ('fresh-closed', fresh_closed(h, o.alloc)),
-        ] + old_region_unchanged_all(o, h)
-    dc = Contract('copy:deepcopy', {'x': T.val, 'memo': T.val}, returns=T.val, ensures=dc_ensures,
+        ] + dc_frame(c, cp)
+
+    def dc_frame(c, cp):
+        """nothing old is written — except the memo dict (when one is passed), which only gains entries keyed by the
+        identities of the copied containers and of the memo itself (CPython's keep-alive entry)"""
+        o, h = c.old, c.h
+        memo = c.memo
+        x = A('x!df')
+        k = z3.Const('k!df', Val)
+        out = []
+        for n in o.arr:
+            if z3.eq(o.arr[n], h.arr[n]):
+                continue
+            exc = z3.And(is_VRef(memo), x == v_a(memo)) if n in DICT_ARRAYS else z3.BoolVal(False)
+            out.append(('pure.' + n, FA([x], z3.Implies(z3.And(x >= 0, x < o.alloc, z3.Not(exc)), z3.Select(h.arr[n], x) == z3.Select(o.arr[n], x)),
+                                        [z3.Select(h.arr[n], x)])))
+        m = v_a(memo)
+        own = lambda kk: z3.And(is_VRef(kk), z3.Or(cp(v_a(kk)), v_a(kk) == m))
+        out.append(('memo-other-keys', z3.Implies(is_VRef(memo), z3.And(
+            FA([k], z3.Implies(z3.Not(own(k)), h.has(m, k) == o.has(m, k)), [h.has(m, k)]),
+            FA([k], z3.Implies(z3.Not(own(k)), h.val(m, k) == o.val(m, k)), [h.val(m, k)]), h.cls(m) == o.cls(m)))))
+        return out
+    def dc_requires(c):
+        """DEEPCOPY is assumed for plain data only: what is copied is a scalar or a dict / list (objects with their own
+        __deepcopy__ are outside this contract)"""
+        return [('plain-data', z3.Implies(is_VRef(c.x), z3.Or(c.old.cls(v_a(c.x)) == CLS_LIST, c.old.cls(v_a(c.x)) == CLS_DICT)))]
+
+    dc = Contract('copy:deepcopy', {'x': T.val, 'memo': T.val}, returns=T.val, requires=dc_requires, ensures=dc_ensures,
                   modifies=CONTAINER_ARRAYS, allocates=True, trusted=True,
                   note='DEEPCOPY: fresh isomorphic structure, argument not written; nested containers of the copy are fresh')
     dc.defaults = {'memo': SV_NONE}
